@@ -116,6 +116,7 @@ func (c Conc) checkObs1(n datamodel.Node, v Value, o ObsOpts, path string) *Mism
 		if itr == nil {
 			return mm(path, "MapIterator", "iterator", "nil")
 		}
+		var keptKeys []datamodel.Node
 		for i := range v.Vs {
 			if itr.Done() {
 				return mm(path, "MapIterator.Done", fmt.Sprintf("false at %d", i), "true")
@@ -124,6 +125,7 @@ func (c Conc) checkObs1(n datamodel.Node, v Value, o ObsOpts, path string) *Mism
 			if err != nil {
 				return mm(path, "MapIterator.Next", "ok", err)
 			}
+			keptKeys = append(keptKeys, kn)
 			wantKey := c.Key(v.Ks[i])
 			if kn == nil || kn.Kind() != datamodel.Kind_String {
 				return mm(path, "MapIterator.key.kind", "string", "non-string key node")
@@ -138,6 +140,24 @@ func (c Conc) checkObs1(n datamodel.Node, v Value, o ObsOpts, path string) *Mism
 		}
 		if !itr.Done() {
 			return mm(path, "MapIterator.Done", "true at end", "false")
+		}
+		// a node that was handed out stays what it was: the key nodes kept across the later Next calls still
+		// read as they did, and they still find their values
+		for i, kn := range keptKeys {
+			wantKey := c.Key(v.Ks[i])
+			if ks, err := kn.AsString(); err != nil || ks != wantKey {
+				return mm(path, "MapIterator.key(kept across later Next calls)", strconv.Quote(wantKey), fmt.Sprintf("%q err=%v", ks, err))
+			}
+			if !o.NoLookups {
+				got, err := n.LookupByNode(kn)
+				if err != nil {
+					return mm(path, "LookupByNode(key node from the iterator)", "ok:"+strconv.Quote(wantKey), err)
+				}
+				if m := c.checkObs(got, v.Vs[i], ObsOpts{NoLookups: true, Typed: o.Typed, PrimaryOnly: o.PrimaryOnly}, path+"/"+wantKey); m != nil {
+					m.Field = "LookupByNode(key node from the iterator):" + m.Field
+					return m
+				}
+			}
 		}
 		if !o.PrimaryOnly {
 			if _, _, err := itr.Next(); err == nil {
